@@ -118,6 +118,27 @@ func history(id int, rng *rand.Rand) O {
 		}
 		inputs[i] = input{bs: match.Bindings{"who": float64(i), "p!": "keep"}, msgs: ms}
 	}
+	// in half of the histories the later versions are DERIVED from version 1 while it is in use: copied
+	// (Spec.Copy), edited (another target, another action source) and compiled by the swapper
+	derived := rng.Intn(2) == 0
+	var smu sync.Mutex
+	derive := func(k int) *core.Spec {
+		smu.Lock()
+		base := specs[1]
+		smu.Unlock()
+		d := base.Copy(strconv.Itoa(k))
+		d.Nodes["n0"].Branches.Branches[0].Target = "nat"
+		d.Nodes["n0"].Branches.Branches[3].Target = "bad"
+		d.Nodes["n1"].ActionSource.Source = mach.JS(version(k, uniq).Nodes["n1"].Act)
+		d.Nodes["bad"].ActionSource.Source = mach.JS(version(k, uniq).Nodes["bad"].Act)
+		check(d.Compile(context.Background(), nil, true))
+		return d
+	}
+	if derived {
+		for k := 2; k <= nv; k++ {
+			delete(specs, k)
+		}
+	}
 	before := map[int]string{}
 	for k, s := range specs {
 		before[k] = mach.SpecSnapshot(s)
@@ -139,8 +160,18 @@ func history(id int, rng *rand.Rand) O {
 			case <-time.After(time.Duration(r.Intn(300)) * time.Microsecond):
 			}
 			k := 1 + r.Intn(nv)
+			smu.Lock()
+			next, have := specs[k]
+			smu.Unlock()
+			if !have {
+				next = derive(k)
+				smu.Lock()
+				specs[k] = next
+				before[k] = mach.SpecSnapshot(next)
+				smu.Unlock()
+			}
 			rec.add(O{"ev": "swap-call", "v": strconv.Itoa(k)})
-			us.SetSpec(specs[k])
+			us.SetSpec(next)
 			rec.add(O{"ev": "swap-ret", "v": strconv.Itoa(k)})
 		}
 	}()
@@ -166,6 +197,12 @@ func history(id int, rng *rand.Rand) O {
 	runtime.GOMAXPROCS(runtime.NumCPU())
 	// what each (version, input) gives alone (computed after the concurrent phase, so that the
 	// concurrent walks are the first use of this history's patterns and sources)
+	for k := 2; k <= nv; k++ {
+		if _, have := specs[k]; !have {
+			specs[k] = derive(k)
+			before[k] = mach.SpecSnapshot(specs[k])
+		}
+	}
 	solo := O{}
 	for k := 1; k <= nv; k++ {
 		row := O{}
@@ -182,7 +219,7 @@ func history(id int, rng *rand.Rand) O {
 		}
 	}
 	return O{"id": id, "kind": "specter", "initial": "1", "solo": solo, "events": rec.events, "specUnchanged": unchanged,
-		"raw": enc.Canon(O{"versions": nv, "inputs": ni, "walkers": g})}
+		"raw": enc.Canon(O{"versions": nv, "inputs": ni, "walkers": g, "derived": derived})}
 }
 
 func main() {
